@@ -208,6 +208,10 @@ func (f *MemFile) Read(b []byte) (n int, err error) {
 		return 0, &fs.PathError{Op: op, Path: f.name, Err: fs.ErrClosed}
 	}
 
+	if len(b) == 0 {
+		return 0, nil
+	}
+
 	nd, ok := f.nd.(*fileNode)
 	if !ok {
 		err = avfs.ErrIsADirectory
@@ -224,7 +228,9 @@ func (f *MemFile) Read(b []byte) (n int, err error) {
 
 	verifYield(&nd.mu, false)
 	nd.mu.RLock()
-	n = copy(b, nd.data[f.at:])
+	if f.at < int64(len(nd.data)) {
+		n = copy(b, nd.data[f.at:])
+	}
 	nd.mu.RUnlock()
 
 	f.at += int64(n)
@@ -255,6 +261,14 @@ func (f *MemFile) ReadAt(b []byte, off int64) (n int, err error) {
 		return 0, fs.ErrInvalid
 	}
 
+	if off < 0 {
+		return 0, &fs.PathError{Op: "readat", Path: f.name, Err: avfs.ErrNegativeOffset}
+	}
+
+	if len(b) == 0 {
+		return 0, nil
+	}
+
 	if f.nd == nil {
 		return 0, &fs.PathError{Op: op, Path: f.name, Err: fs.ErrClosed}
 	}
@@ -267,10 +281,6 @@ func (f *MemFile) ReadAt(b []byte, off int64) (n int, err error) {
 		}
 
 		return 0, &fs.PathError{Op: op, Path: f.name, Err: err}
-	}
-
-	if off < 0 {
-		return 0, &fs.PathError{Op: "readat", Path: f.name, Err: avfs.ErrNegativeOffset}
 	}
 
 	if f.openMode&avfs.OpenRead == 0 {
@@ -591,12 +601,12 @@ func (f *MemFile) Truncate(size int64) error {
 		return fs.ErrInvalid
 	}
 
-	if size < 0 {
-		return &fs.PathError{Op: op, Path: f.name, Err: f.vfs.err.InvalidArgument}
-	}
-
 	if f.nd == nil {
 		return &fs.PathError{Op: op, Path: f.name, Err: fs.ErrClosed}
+	}
+
+	if size < 0 {
+		return &fs.PathError{Op: op, Path: f.name, Err: f.vfs.err.InvalidArgument}
 	}
 
 	nd, ok := f.nd.(*fileNode)
@@ -673,6 +683,16 @@ func (f *MemFile) Write(b []byte) (n int, err error) {
 	verifYield(&nd.mu, true)
 	nd.mu.Lock()
 
+	if f.openMode&avfs.OpenAppend != 0 {
+		// in append mode the data is always written at the current end of the file.
+		f.at = int64(len(nd.data))
+	}
+
+	if gap := f.at - int64(len(nd.data)); gap > 0 {
+		// writing beyond the end of the file leaves a zero filled gap.
+		nd.data = append(nd.data, make([]byte, gap)...)
+	}
+
 	n = copy(nd.data[f.at:], b)
 	if n < len(b) {
 		nd.data = append(nd.data, b[n:]...)
@@ -696,6 +716,10 @@ func (f *MemFile) WriteAt(b []byte, off int64) (n int, err error) {
 
 	if f == nil {
 		return 0, fs.ErrInvalid
+	}
+
+	if f.openMode&avfs.OpenAppend != 0 {
+		return 0, avfs.ErrWriteAtInAppendMode
 	}
 
 	if off < 0 {
